@@ -195,6 +195,15 @@ def check_key(ctx, case):
         short = dbytes.lstrip(b"\x00")
         if short != dbytes and short:
             variants["ssleay-short-octets"] = rder.enc_ecprivkey(short, oid, pb)
+        # OpenSSL writes an EC PARAMETERS block in front of the key
+        params = rder.pem("EC PARAMETERS", rder.enc_oid(oid))
+        try:
+            same_sk(SigningKey.from_pem(params + rder.pem("EC PRIVATE KEY", variants["ssleay-full"]),
+                                        hashfunc=hashlib.sha256), "refpem-with-ec-parameters")
+            same_sk(SigningKey.from_pem((params + rder.pem("EC PRIVATE KEY", variants["ssleay-full"])).decode(),
+                                        hashfunc=hashlib.sha256), "refpemstr-with-ec-parameters")
+        except Exception as e:
+            fail("sk-ref-encoded/exception/ec-parameters/%s" % exc_sig(e), repr(e))
         for vn, der in variants.items():
             try:
                 same_sk(SigningKey.from_der(der, hashfunc=hashlib.sha256), "ref-" + vn)
